@@ -56,3 +56,31 @@ Print Assumptions ops_refine.
 Print Assumptions views_agree.
 Print Assumptions spec_meaning.
 Print Assumptions query_roundtrip.
+
+(* m.update(m) (the harness op updself; IO.v's rd_op_s reads it as Update (d s)): the dict is unchanged, the invariant
+   holds afterwards, and every repeated key of the pair list collapses to ONE pair with the key's last value
+   (getlist k = [d[k]] for a present key, [] otherwise).  The pair list afterwards has the pairs of the dict, each key
+   at the position of its first pair in the OLD pair list; that is the dict's own order in update_self_example, and
+   is not in update_self_order_example (setlist of a present key moves the key to the end of the pair list and leaves
+   it in place in the dict) *)
+Theorem update_self_collapses : forall s : state, Inv s ->
+  d (fst (step s (Update (d s)))) = d s /\
+  Inv (fst (step s (Update (d s)))) /\
+  (forall k, dget k (d s) = last_val k (l (fst (step s (Update (d s)))))) /\
+  (forall k, v_getlist k (fst (step s (Update (d s)))) =
+             match dget k (d s) with Some v => [v] | None => [] end).
+Proof. exact update_self_collapses_proof. Qed.
+
+Example update_self_example :
+  let s := init [(1, 10); (2, 20); (1, 11)] in
+  d s = [(1, 11); (2, 20)] /\ l (fst (step s (Update (d s)))) = [(1, 11); (2, 20)] /\
+  v_getlist 1 s = [10; 11] /\ v_getlist 1 (fst (step s (Update (d s)))) = [11].
+Proof. repeat split; reflexivity. Qed.
+
+Example update_self_order_example :
+  let s := fst (run [(1, 10); (2, 20); (1, 12)] [SetList 1 [11]]) in
+  d s = [(1, 11); (2, 20)] /\ l s = [(2, 20); (1, 11)] /\
+  l (fst (step s (Update (d s)))) = [(2, 20); (1, 11)].
+Proof. repeat split; reflexivity. Qed.
+
+Print Assumptions update_self_collapses.
